@@ -208,7 +208,7 @@ def run(ctx):
     if rc != 0:
         ctx.notes.append("race detector build unavailable: " + out[-300:])
         return
-    k = ctx.scale(45, 1500)
+    k = ctx.scale(24, 1500)
     sub = cases[:k]
     lines = ["purity\t" + sx(c) for c in sub]
     renv = dict(os.environ, GORACE="halt_on_error=0 exitcode=0")
@@ -221,7 +221,15 @@ def run(ctx):
     ctx.count("race:histories", len(lines))
     for (rc, o, err), cs in zip(rs, subs):
         if rc != 0 and "DATA RACE" not in err:
-            ctx.notes.append("race run failed: " + err[-300:])
+            fatal = [l for l in err.splitlines() if l.startswith(("fatal error", "panic:"))]
+            if fatal:
+                # the process died under the detector's scheduling (e.g. concurrent map writes): that is a failing
+                # history, not a harness problem
+                ctx.violation("the process dies while 16 goroutines resolve over one client (race-detector build)",
+                              {"histories": [sx(c)[:3000] for c in cs[:3]]}, observed=" | ".join(fatal[:2])[:300],
+                              required="every resolution returns")
+            else:
+                ctx.notes.append("race run failed: " + err[-300:])
             continue
         for c, line in zip(cs, o):
             classify(ctx, c, line, race=True)
